@@ -22,6 +22,7 @@ type seed struct {
 }
 
 var seeds = []seed{
+	{"repairAfterLazy re-types only containers with the lazy sentinel", "F2.repair", "parallel.go", "\t\t\tt.computeCardinality()\n\t\t}\n\n\t\tif t.getCardinality() <= arrayDefaultMaxSize {\n\t\t\treturn t.toArrayContainer()\n\t\t} else if c.(*bitmapContainer).isFull() {\n\t\t\treturn newRunContainer16Range(0, MaxUint16)\n\t\t}\n", "\t\t\tt.computeCardinality()\n\t\t\tif t.getCardinality() <= arrayDefaultMaxSize {\n\t\t\t\treturn t.toArrayContainer()\n\t\t\t} else if c.(*bitmapContainer).isFull() {\n\t\t\t\treturn newRunContainer16Range(0, MaxUint16)\n\t\t\t}\n\t\t}\n", "repairAfterLazy"},
 	{"AndAny hands its scratch union to iand without re-typing it", "F8.scratch", "fastaggregation.go", "\t\t\tif bc, ok := ored.(*bitmapContainer); ok {\n\t\t\t\tif bc.cardinality <= arrayDefaultMaxSize {\n\t\t\t\t\tored = bc.toArrayContainer()\n\t\t\t\t}\n\t\t\t}\n", "", "AndAny|scratch operand"},
 	{"roaring64 ReadFrom decodes through a package-level scratch buffer", "G1", "roaring64/roaring64.go", "func (rb *Bitmap) ReadFrom(stream io.Reader) (p int64, err error) {\n\tsizeBuf := make([]byte, 8)", "var headerScratch [8]byte\n\nfunc (rb *Bitmap) ReadFrom(stream io.Reader) (p int64, err error) {\n\tsizeBuf := headerScratch[:]", "ReadFrom|global headerScratch"},
 	{"UnmarshalBinary decodes zero-copy", "A8", "roaring.go", "\tr := bytes.NewReader(data)\n\t_, err := rb.ReadFrom(r)\n\treturn err", "\t_, err := rb.FromBuffer(data)\n\treturn err", "UnmarshalBinary|param:data"},
